@@ -111,9 +111,9 @@ func checkC10() fw.Check {
 		Assumptions:   []string{"exhaustive over single faults for the census of the chosen scenario (window 1..6, destination at 4); MustClosePort branches are unreachable on Linux", "Linux build"},
 		Gen: func(tier string, seed int64) []fw.Case {
 			var cases []fw.Case
-			wins := []window{{1, 6}}
+			wins := []window{{1, 6}, {250, 255}}
 			if tier == "thorough" {
-				wins = []window{{1, 6}, {250, 255}, {2, 12}}
+				wins = []window{{1, 6}, {250, 255}, {2, 12}, {1, 3}, {255, 255}}
 			}
 			for _, v := range refmatch.Variants {
 				for _, w := range wins {
@@ -261,7 +261,7 @@ func runC10Case(c *fw.Ctx, id string, v refmatch.Variant, w window, pairs bool) 
 	}
 	if pairs {
 		r0 := c.Rng
-		for i := 0; i < 60; i++ {
+		for i := 0; i < 250; i++ {
 			a, b := injs[r0.Intn(len(injs))], injs[r0.Intn(len(injs))]
 			tag := fmt.Sprintf("%s pair=%s#%d/%s+%s#%d/%s", id, a.key.Op, a.key.K, a.cl.name, b.key.Op, b.key.K, b.cl.name)
 			r := runC10(c, v, w, map[simnet.FaultKey]simnet.Fault{a.key: a.cl.f, b.key: b.cl.f}, false)
